@@ -36,7 +36,10 @@ def outcome(fn):
         sf = fn()
     except Exception as e:  # noqa
         return {"st": type(e).__name__, "fmt": "", "items": [], "charts": []}
-    p = cc.proj(sf)
+    try:
+        p = cc.proj(sf)
+    except Exception as e:  # noqa   (a loaded object whose items / charts cannot even be read)
+        return {"st": "unreadable-object:" + type(e).__name__, "fmt": "", "items": [], "charts": []}
     return {"st": "ok", "fmt": cc.fmt_of(sf), "items": p["items"], "charts": p["charts"]}
 
 
